@@ -151,7 +151,7 @@ def explore(ctx):
     # 4. real processes: the earlier candidate is interesting but its test is slow, a later one is interesting at once
     from vlib import realrun
     for n in ((2,) if ctx.quick() else (2, 3, 4)):
-        rsc = {'files': [('f0.c', 'abcd')], 'timeout': 5, 'slow_s': 1.2,
+        rsc = {'files': [('f0.c', 'abcd')], 'timeout': 9, 'slow_s': 2.7,      # (well inside the timeout, longer than any "grace period")
                'rules': [([('nothas', 0, 'a'), ('has', 0, 'b')], 'slow0'), ([('has', 0, 'a'), ('nothas', 0, 'b')], 0), ([('has', 0, 'a'), ('has', 0, 'b')], 0)],
                'passes': [{'key': 1, 'ops': [('delch', 'a'), ('delch', 'b'), ('delch', 'c'), ('delch', 'd')], 'aos': 0}], 'cfg': {'N': n}}
         o = realrun.run_real(rsc, ctx.tmp, timeout=rsc['timeout'])
